@@ -112,6 +112,8 @@ pub use self::panic::{
     PanicCatcherFallbackMode, catch_panic, panic_catcher_disable, panic_catcher_enable,
     panic_catcher_get_backtrace, panic_catcher_set_fallback_mode, panic_catcher_set_hook,
 };
+#[cfg(wirefilter_verif)]
+pub use self::panic::verif_panic_catcher_level;
 pub use self::rhs_types::{
     BytesExpr, BytesFormat, ExplicitIpRange, IntRange, IpCidr, IpRange, Regex, RegexError,
     RegexFormat,
